@@ -139,6 +139,13 @@ func c20(r *Rec, replay map[string]interface{}) {
 				}
 			}
 			if k == "NV" || k == "VC" {
+				for _, nv := range []int{1, 2, 4} {
+					c := b
+					c.Proof, c.PKind, c.Prepares, c.Votes, c.Mix = true, "emptypreps", 0, nv, ""
+					add(c)
+					c.Mix = "all"
+					add(c)
+				}
 				for _, pk := range []string{"mismatch", "nopp"} {
 					for _, np := range []int{1, 3} {
 						c := b
@@ -365,6 +372,10 @@ func c20body(c c20case, bad func(clause, format string, a ...interface{})) {
 		for i := 0; i < c.Prepares; i++ {
 			pf, _ := fac(101 + i)
 			pm.PrepareMessages = append(pm.PrepareMessages, pf.CreatePrepareMessage(H, pview, hash))
+		}
+		if c.PKind == "emptypreps" {
+			// the certificate of a proposer whose own weight is a quorum: its PREPREPARE and an EMPTY (non-nil) PREPARE list
+			pm.PrepareMessages = []*interfaces.PrepareMessage{}
 		}
 		return pm
 	}
